@@ -891,6 +891,8 @@ class CurrentLabel(schemdraw.elements.CurrentLabelInline):
         reverse = kwargs.get('reverse', False)
         if isinstance(at, RealVoltageSource) or isinstance(at, RealCurrentSource): # when replacing CurrentLabelInline this dependency may be removed
             reverse = not reverse
+        if not start: # CurrentLabelInline points into the element: at the end lead that is against the reference direction
+            reverse = not reverse
         kwargs.update({'start' : start, 'reverse' : reverse})
         super().__init__(**kwargs)
         self.at(at)
